@@ -97,15 +97,43 @@ def axioms_of(module, theorems):
     return res, out
 
 
-def grep_forbidden():
-    """source scan for sorry/admit/axiom/native_decide/... outside comments"""
+def import_closure(modules):
+    """the Gkv.* modules transitively imported by `modules` (by reading the import lines)"""
+    seen, todo = set(), list(modules)
+    while todo:
+        m = todo.pop()
+        if m in seen or not m.startswith("Gkv"):
+            continue
+        path = os.path.join(LEAN, *m.split(".")) + ".lean"
+        if not os.path.exists(path):
+            continue
+        seen.add(m)
+        for line in open(path, encoding="utf-8"):
+            line = line.strip()
+            if line.startswith("import "):
+                todo.append(line.split()[1])
+            elif line and not line.startswith("--") and not line.startswith("/-") and not line.startswith("open") and not line.startswith("import"):
+                if not line.startswith("-") and not line.startswith("*") and "import" not in line:
+                    pass
+    return seen
+
+
+def grep_forbidden(modules=None):
+    """source scan for sorry/admit/axiom/native_decide/... outside comments, over the modules
+    the property's theorems are built from (plus the model driver)"""
     import re
     bad = []
     pat = re.compile(r"\b(sorry|admit|native_decide|bv_decide|implemented_by|unsafe)\b|^axiom\s|maxHeartbeats 0")
-    for dp, _, fs in os.walk(os.path.join(LEAN, "Gkv")):
-        for fn in fs:
-            if not fn.endswith(".lean"):
-                continue
+    files = []
+    if modules is None:
+        for dp, _, fs in os.walk(os.path.join(LEAN, "Gkv")):
+            files += [os.path.join(dp, fn) for fn in fs if fn.endswith(".lean")]
+    else:
+        for m in sorted(import_closure(list(modules) + ["Gkv.Model.World"])):
+            files.append(os.path.join(LEAN, *m.split(".")) + ".lean")
+    for full in files:
+        if True:
+            dp, fn = os.path.split(full)
             incomment = 0
             for i, line in enumerate(open(os.path.join(dp, fn), encoding="utf-8")):
                 code = line
@@ -181,6 +209,23 @@ def first_mismatch(ops, impl, model):
     return None
 
 
+def second_pass(ops, impl):
+    """Some observations of the implementation are INPUT to the model (two-pass protocol):
+    `kreads F` (the file reads a key-only call made) becomes `readsok F <reads>` for the model,
+    which answers ok / bad:value-bytes-read.  Returns (ops for the model, impl obs to compare)."""
+    mo, ic = [], []
+    for i, l in enumerate(ops):
+        o = impl[i] if i < len(impl) else None
+        if l.startswith("kreads ") and o is not None and not o.startswith(("panic", "hang", "dead")):
+            mo.append("readsok " + l.split()[1] + ((" " + o) if o else ""))
+            ic.append("ok")
+        else:
+            mo.append(l)
+            if o is not None:
+                ic.append(o)
+    return mo, ic
+
+
 def eval_history(lines, tag="tmp"):
     """run one history on both sides; returns (impl_obs, model_obs)"""
     os.makedirs(WORK, exist_ok=True)
@@ -192,6 +237,9 @@ def eval_history(lines, tag="tmp"):
     impl = read_lines(ip) if os.path.exists(ip) else []
     if rc != 0:
         impl = impl + ["crash:%d" % rc]
+    mlines, impl = second_pass(lines, impl)
+    with open(op, "w") as f:
+        f.write("\n".join(mlines) + "\n")
     run_model(op, mp)
     model = read_lines(mp)
     for p in (op, ip, mp):
